@@ -31,7 +31,7 @@ func main() {
 		Props: map[string]sim.PropSpec{
 			"C01": {Run: runC01, Modes: []string{"generated", "corpus", "generated", "expr", "coro", "slice", "coro"}},
 			"C02": {Run: runC02, Modes: []string{"generated", "corpus", "axioms", "flow", "expr", "coro", "slice", "flow", "coro"}},
-			"C04": {Run: runC04, Modes: []string{"expr", "coro", "generated", "expr", "flow", "coro", "slice", "corpus"}},
+			"C04": {Run: runC04, Modes: []string{"expr", "coro", "generated", "expr", "coro", "slice", "coro", "flow", "corpus"}},
 		},
 	})
 }
